@@ -50,9 +50,9 @@ class ShapeDescriptionBase:
         self.thermoFactorMin = 1
 
     def _processAspectRatio(self, ar):
+        # Values below 1 are treated as 1; a new array is returned so that the caller's array is not modified
         ar = np.atleast_1d(ar)
-        ar[ar < 1] = 1
-        return ar
+        return np.where(ar < 1, 1, ar)
 
     def eccentricity(self, ar):
         '''
